@@ -51,7 +51,7 @@ func libStateOf(state string) gortsplib.ServerSessionState {
 func mustRefuse(c ctlCase) bool {
 	state, proto := splitState(c.State)
 	switch c.Origin {
-	case "other-ip", "other-family":
+	case "other-ip", "other-family", "other-ip-v6":
 		return true
 	default: // same address, other connection: only while the session streams over its connection
 		return proto == "tcp" && (state == "play" || state == "record")
@@ -171,6 +171,9 @@ func runControl(ts *rig.TestServer, c ctlCase) {
 	switch c.Origin {
 	case "other-ip":
 		intruderIP = fmt.Sprintf("127.0.0.%d", 2+r.Intn(8))
+	case "other-ip-v6":
+		// two native IPv6 addresses: the loopback and a second address of this host
+		victimIP, intruderIP = "::1", secondV6
 	case "other-family":
 		if r.Intn(2) == 0 {
 			victimIP, intruderIP = "::1", "127.0.0.1"
@@ -450,6 +453,9 @@ func controlPart() {
 				}
 				if v6ok && (!run.Quick() || strings.HasPrefix(st, "play") || strings.HasPrefix(st, "record")) {
 					cases = append(cases, ctlCase{Listen: "dual", State: st, Method: string(m), Origin: "other-family", Seed: rs.Int63()})
+				}
+				if v6ok && secondV6 != "" && rep == 0 {
+					cases = append(cases, ctlCase{Listen: "dual", State: st, Method: string(m), Origin: "other-ip-v6", Seed: rs.Int63()})
 				}
 				if st == "play-tcp" || st == "record-tcp" {
 					cases = append(cases, ctlCase{Listen: "v4", State: st, Method: string(m), Origin: "same-ip-conn-with-own-session", Seed: rs.Int63()})
